@@ -14,6 +14,7 @@
 #include <unistd.h>
 #include <sys/wait.h>
 #include <fcntl.h>
+#include <sys/mman.h>
 extern void (*signal(int, void (*)(int)))(int);   /* <signal.h> clashes with the library's ssignal typedef */
 static void child_quiet(void) { int dn = open("/dev/null", O_WRONLY); if (dn >= 0) dup2(dn, 2); signal(6, (void (*)(int))0); /* SIGABRT back to default: a clean abort() must look like one */ }
 
@@ -379,13 +380,32 @@ static int l_step(int op) {
 }
 
 /* =============================================================== driver */
-#define SEEN_CAP (1u << 16)
-static uint64_t seen_h[SEEN_CAP]; static unsigned char seen_d[SEEN_CAP];
-static int seen_visit(uint64_t h, int depth) { /* returns 1 if already expanded at <= depth */
+#define SEEN_CAP (1u << 18)
+/* closure bookkeeping, SHARED by all worker processes (anonymous shared mapping created before the workers are forked):
+ * a canonical state is OWNED by the history that reached it at the smallest depth seen so far; the owner's continuations are
+ * all explored by the odometer (every later execution that replays the same prefix is the owner again), any other history
+ * reaching the state at the same or a larger depth is cut there.  Ownership only ever moves to a strictly smaller depth, and
+ * the new owner expands the state completely, so every state reachable within the depth bound has every operation applied. */
+struct seen_slot { uint64_t h, owner; int depth; };
+static struct seen_slot *SEEN;
+static int seen_visit(uint64_t h, int depth, uint64_t path) { /* returns 1 if another history owns the state at <= depth */
+  if (!SEEN) return 0;
   if (!h) h = 1; unsigned i = (unsigned)(h & (SEEN_CAP - 1));
   for (unsigned p = 0; p < SEEN_CAP; p++, i = (i + 1) & (SEEN_CAP - 1)) {
-    if (seen_h[i] == h) { if (seen_d[i] <= depth) return 1; seen_d[i] = (unsigned char)depth; return 0; }
-    if (!seen_h[i]) { seen_h[i] = h; seen_d[i] = (unsigned char)depth; return 0; }
+    uint64_t cur = __atomic_load_n(&SEEN[i].h, __ATOMIC_ACQUIRE);
+    if (cur == 0) {
+      uint64_t exp = 0;
+      if (__atomic_compare_exchange_n(&SEEN[i].h, &exp, h, 0, __ATOMIC_ACQ_REL, __ATOMIC_ACQUIRE)) {
+        __atomic_store_n(&SEEN[i].depth, depth, __ATOMIC_RELEASE); __atomic_store_n(&SEEN[i].owner, path, __ATOMIC_RELEASE); return 0; }
+      cur = exp;
+    }
+    if (cur == h) {
+      uint64_t ow = __atomic_load_n(&SEEN[i].owner, __ATOMIC_ACQUIRE); int dd = __atomic_load_n(&SEEN[i].depth, __ATOMIC_ACQUIRE);
+      if (ow == path) return 0;
+      if (ow != 0 && dd <= depth) return 1;
+      if (ow == 0) return 1;                                  /* another worker is just taking it */
+      __atomic_store_n(&SEEN[i].depth, depth, __ATOMIC_RELEASE); __atomic_store_n(&SEEN[i].owner, path, __ATOMIC_RELEASE); return 0;
+    }
   }
   return 0;
 }
@@ -393,10 +413,11 @@ static int deepest_new = 0;
 
 static void body(void) {
   int kind = vx_choose("kind", 7), mode = vx_choose("mode", 2);
-  int D = mode == 0 ? (vx_thorough() ? 4 : 3) : (vx_thorough() ? 14 : 10);
+  int D = mode == 0 ? (vx_thorough() ? 4 : 3) : (vx_thorough() ? 6 : 5);
   if (mode == 0 && (kind == 2 || kind == 3) && vx_thorough()) D = 3;      /* uivector, ivector: depth 4 only for dvector (same skeleton) */
-  if (mode == 0 && (kind == 0 || kind == 5) && !vx_thorough()) D = 2;   /* 136 / 60 operations per step */
-  if (mode == 0 && (kind == 0 || kind == 5) && vx_thorough()) D = 3;
+  if (mode == 0 && kind == 0) D = vx_thorough() ? 3 : 2;                   /* matrix: 136 operations per step */
+  if (mode == 0 && kind == 5) D = 3;                                        /* tensor: 60 operations per step */
+  if (mode == 1 && kind == 5) vx_require(0);   /* two tensors of up to 3 slices have ~1e8 joint shapes: no closure, depth-bounded histories only */
   TAG = 0; OPNAME[0] = 0;
   int nops; int (*step)(int); uint64_t (*state)(void); void (*fin)(void);
   switch (kind) {
@@ -406,18 +427,19 @@ static void body(void) {
     case 5: t_reset(); nops = 2 * T_NOPS; step = t_step; state = t_state; fin = t_free; break;
     default: l_reset(); nops = L_NOPS; step = l_step; state = l_state; fin = l_free; break;
   }
-  uint64_t h = 0;
+  uint64_t h = 0, path = 0x9e3779b97f4a7c15ULL;
   for (int d = 0; d < D; d++) {
     int op = vx_choose("op", nops + (d > 0 ? 1 : 0));
     if (d > 0 && op == nops) break;                       /* stop here: shorter histories are histories too */
     PROBED = 0;
+    path = vx_hash(&op, sizeof op, path);
     if (!step(op)) vx_require(0);
     vx_transition(1);
     if (PROBED) break;                                   /* an out-of-range probe ends the history (state unchanged) */
     h = state();
     if (mode == 1) {
       uint64_t hk = vx_hash(&kind, sizeof kind, h);
-      if (seen_visit(hk, d)) break;
+      if (seen_visit(hk, d, path)) break;
       vx_state(hk);
       if (d > deepest_new) deepest_new = d;
     }
@@ -428,8 +450,10 @@ static void body(void) {
 
 int main(int argc, char **argv) {
   vx_describe("alphabet", "7 container kinds (matrix, dvector, uivector, ivector, strvector, tensor, dvectorlist), 2 live containers per kind; operations: New/init/Resize/Copy(into init,same,different)/Append* with operand length 0,dim-1,dim,dim+1/Delete*/RemoveAt/set/get/Set/Extend/Sort/Median/HasValue/IndexOf/DVectNorm(out shorter,equal,longer)/TensorAppend*/TensorCopy/AddTensorMatrix/DVectorListAppend/out-of-range accessors (forked probe)/Del of everything at the end");
-  vx_describe("modes", "mode 0: all histories to depth 3 (quick: 2 for matrix and tensor) / 4 (thorough: 3 for matrix, tensor) without merging; mode 1: closure of reachable canonical states (allocated?, shapes; dimensions capped at 4) under every operation, cut on states already expanded at <= depth, depth bound 10/14");
+  vx_describe("modes", "mode 0: all histories to depth 3 (matrix: 2) / thorough 4 (matrix, tensor, uivector, ivector: 3) without merging; mode 1 (all kinds but tensor): closure of reachable canonical states (allocated?, shapes; dimensions capped at 4) under every operation: a state is expanded by the history that reached it at the smallest depth (ownership table shared by all workers), other arrivals are cut; depth bound 5/6");
   vx_describe("oracle", "shadow model in plain C arrays compared cell by cell after every operation (old cells preserved, new cells zero, copies deep), ASan+UBSan, out-of-range accessors may return or abort() but not touch memory");
+  SEEN = mmap(NULL, sizeof(struct seen_slot) * SEEN_CAP, PROT_READ | PROT_WRITE, MAP_SHARED | MAP_ANONYMOUS, -1, 0);
+  if (SEEN == MAP_FAILED) SEEN = NULL;
   vx_set_shard_depth(3);
   vx_expect_outcomes(200);
   return vx_main(argc, argv, "C14", body);
